@@ -157,11 +157,13 @@ class Ctx:
             # write a derived cfg with substituted constants ("NAME = value" lines appended/replaced)
             src = open(os.path.join(d, cfgfile)).read()
             for k, v in constants.items():
-                pat = re.compile(r"^\s*%s\s*=.*$" % re.escape(k), re.M)
+                pat = re.compile(r"^\s*%s\s*(=|<-).*$" % re.escape(k), re.M)
+                v = str(v)
+                line = "  %s %s" % (k, v) if v.startswith("<-") else "  %s = %s" % (k, v)
                 if pat.search(src):
-                    src = pat.sub("  %s = %s" % (k, v), src)
+                    src = pat.sub(line.replace("\\", "\\\\"), src)
                 else:
-                    src += "\nCONSTANT %s = %s\n" % (k, v)
+                    src += "\nCONSTANT %s\n" % line
             cfgfile = "_gen_%s_%d.cfg" % (module, len(self.cov["tlc_runs"]))
             open(os.path.join(d, cfgfile), "w").write(src)
         meta = tempfile.mkdtemp(prefix="meta_", dir=self.scratch)
@@ -317,7 +319,10 @@ def read_ndjson(path):
         for ln in f:
             ln = ln.strip()
             if ln:
-                out.append(json.loads(ln))
+                try:
+                    out.append(json.loads(ln))
+                except ValueError:
+                    pass  # truncated last line of a crashed driver
     return out
 
 
